@@ -247,7 +247,9 @@ func (c CollectionGenerator) GenerateDeltas(
 	res := make([]*discovery.Resource, 0)
 	var deletes []string
 
-	for k := range req.ConfigsUpdated {
+	// iterate in key order: resources and removed names are sent in the order they are collected here
+	updated := slices.SortBy(req.ConfigsUpdated.UnsortedList(), model.ConfigKey.String)
+	for _, k := range updated {
 		// When configKey kind is TypeUrl, the namespace is the type URL.
 		if k.Kind != kind.TypeUrl || k.Namespace != w.TypeUrl {
 			log.Debugf("Skipped config update for type %s. Watched type is %s", k.Namespace, w.TypeUrl)
